@@ -110,7 +110,7 @@ def run(ctx):
                          "indentation, LF/CR/CRLF) x random positions: no panic, and for LF/CR/CRLF files line number, left-trimmed (truncated) line text and caret offset equal an "
                          "independent oracle; every case also against the Coq model. positions: error position of Document.Check on exhaustive/truncated/mutated JSON texts against an "
                          "independent LL(1) parser. non-trivial = content with a line break and a non-blank byte / text with a structural byte")
-    ctx.assumptions += ["validation-error positions (start of the offending value or key) are checked with the validator model (C01/C03) in a later revision",
+    ctx.assumptions += ["validation-error positions are checked for two planted violation classes (unknown key, wrong kind) at every nesting position of generated rule-free schemas",
                         "for files mixing CR and LF irregularly only totality is required"]
     cases = []
     for n in range(1, L + 1):
@@ -146,7 +146,74 @@ def run(ctx):
     for label, texts in groups:
         texts = list(dict.fromkeys(texts))
         judge_positions(ctx, label, texts)
+    judge_validation_positions(ctx, quick)
     jc.proof_tail(ctx, st, ["C17_*"])
+
+
+def plant(rng, w, d):
+    """returns (new document, marker token, expected code) with ONE planted violation, or None"""
+    import jsight as J
+    sites = []
+
+    def walk(wn, dn, path):
+        if wn.any:
+            return
+        if wn.kind == "O" and dn[0] == "o":
+            sites.append(("key", path))
+            for i, (k, x) in enumerate(dn[1]):
+                m = [c for c in wn.members if c[0] == k]
+                if m:
+                    walk(m[0][2], x, path + (i,))
+        elif wn.kind == "A" and dn[0] == "a" and wn.items:
+            for i, x in enumerate(dn[1]):
+                walk(wn.items[min(i, len(wn.items) - 1)], x, path + (i,))
+        elif wn.kind in "SIFB" and dn[0] in "sifb":
+            sites.append(("kind", path, wn.kind))
+    walk(w, d, ())
+    if not sites:
+        return None
+    s = rng.choice(sites)
+    if s[0] == "key":
+        def f(x):
+            ms = list(x[1])
+            ms.insert(rng.randrange(len(ms) + 1), ("zz_unknown_zz", ("i", "1")))
+            return ("o", ms)
+        return J.replace_at(d, s[1], f), '"zz_unknown_zz"', "E206"
+    tok = '"zz_wrong_zz"' if s[2] != "S" else "424242"
+    return J.replace_at(d, s[1], lambda x: ("s" if s[2] != "S" else "i", tok)), tok, "E210"
+
+
+def judge_validation_positions(ctx, quick):
+    """a validation error's position is the start of the offending value or key in the document"""
+    import jsight as J
+    rng = ctx.rng
+    lines, meta = [], []
+    for _ in range(300 if quick else 10000):
+        w = J.rand_schema(rng, rng.randint(1, 4))
+        import check_c01
+        if w.kind not in "OA" or check_c01.has_nullable_container(w):      # nullable containers: known finding C01-nullable-container
+            continue
+        d = J.conforming(rng, w, False)
+        p = plant(rng, w, d)
+        if p is None:
+            continue
+        d2, marker, code = p
+        text = J.print_doc(d2, rng)
+        if text.count(marker) != 1:
+            continue
+        lines.append(json.dumps({"schema": J.print_schema(w, rng), "ops": [["check"], ["validate", text]]}))
+        meta.append((text, marker, code))
+    outs = vc.impl_parallel(["schema"], lines) if lines else []
+    for l, (text, marker, code), o in zip(lines, meta, outs):
+        r = json.loads(o)
+        ctx.evaluations += 1
+        if r[0] != "ok":
+            continue
+        want = "%s@%d" % (code, len(text[:text.index(marker)].encode()))
+        if r[1] != want and len(ctx.violations) < 40:
+            ctx.report("validation error position: library %s, the offending %s starts at %s; document %r" % (r[1], "key" if code == "E206" else "value", want, text[:120]),
+                       "valpos:" + l, {"schema": json.loads(l)["schema"], "document": text, "implementation": r[1], "expected": want}, case=text)
+    ctx.extra["validation_position_cases"] = len(lines)
 
 
 def replay(ctx, path):
